@@ -185,6 +185,9 @@ def c10(work, tier, seed):
             add(ep, cls, cfg("ntlm"))
             add(ep, cls, cfg("local", tls=True))
             add(ep, cls, cfg("kerberos"))
+        elif ep == "header":
+            for a, tls in (("openid", False), ("local", True), ("ntlm", False)):
+                add(ep, cls, cfg(a, tls=tls))
         elif ep == "ntlm-message":
             for rep in range(1 if tier == "quick" else 5):
                 add(ep, cls, cfg("ntlm"))
